@@ -195,6 +195,64 @@ async fn cafile(addr_a: SocketAddr, a: &Certs, b: &Certs, topic: &str) -> String
 /// `tls skew <seconds>`: a set generated just now, judged by peers whose clock is <seconds> behind (negative: ahead) of
 /// the machine that generated it: the verifiers the two sides are configured with (webpki over the set's CA) accept the
 /// server's and the client's certificate. Clocks of two machines are never exactly in step.
+/// `tls expiring <secs>`: a CA of the scenario's own, a server certified by it and configured with it, and a client certificate
+/// issued by it that stops being valid <secs> seconds from now. The client registers twice while the certificate is valid and
+/// once after it has lapsed, each time on a new connection: what the server decided for a certificate before says nothing
+/// about it now.
+async fn expiring(secs: i64, topic: &str) -> String {
+    let r = async {
+        let dir = scratch_dir("tlsX");
+        let _ = std::fs::remove_dir_all(&dir);
+        std::fs::create_dir_all(&dir)?;
+        let mut cap = rcgen::CertificateParams::new(vec![]);
+        cap.is_ca = rcgen::IsCa::Ca(rcgen::BasicConstraints::Unconstrained);
+        cap.key_usages.push(rcgen::KeyUsagePurpose::KeyCertSign);
+        cap.key_usages.push(rcgen::KeyUsagePurpose::DigitalSignature);
+        let ca = rcgen::Certificate::from_params(cap)?;
+        let w = |name: &str, cert: &rcgen::Certificate| -> anyhow::Result<(PathBuf, PathBuf)> {
+            let (c, k) = (dir.join(format!("{name}.der")), dir.join(format!("{name}.key.der")));
+            std::fs::write(&c, cert.serialize_der_with_signer(&ca)?)?;
+            std::fs::write(&k, cert.serialize_private_key_der())?;
+            Ok((c, k))
+        };
+        let ca_path = dir.join("ca.der");
+        std::fs::write(&ca_path, ca.serialize_der()?)?;
+        let mut sp = rcgen::CertificateParams::new(vec!["localhost".to_string()]);
+        sp.extended_key_usages.push(rcgen::ExtendedKeyUsagePurpose::ServerAuth);
+        sp.key_usages.push(rcgen::KeyUsagePurpose::DigitalSignature);
+        let server = w("server", &rcgen::Certificate::from_params(sp)?)?;
+        let until = time::OffsetDateTime::now_utc() + time::Duration::seconds(secs);
+        let mut cp = rcgen::CertificateParams::new(vec!["localhost".to_string()]);
+        cp.extended_key_usages.push(rcgen::ExtendedKeyUsagePurpose::ClientAuth);
+        cp.key_usages.push(rcgen::KeyUsagePurpose::DigitalSignature);
+        cp.not_before = time::OffsetDateTime::now_utc() - time::Duration::days(1);
+        cp.not_after = until;
+        let client = w("client", &rcgen::Certificate::from_params(cp)?)?;
+        let addr = start_server_with(&ca_path, &server.0, &server.1)?;
+        let mut verdicts = vec![];
+        for round in 0..3 {
+            if round == 2 {
+                let left = until - time::OffsetDateTime::now_utc();
+                tokio::time::sleep(Duration::from_millis((left.whole_milliseconds().max(0) as u64) + 2500)).await;
+            }
+            let one = async {
+                let conn = raw_connect(addr, &ca_path, Some((&client.0, &client.1))).await?;
+                let mut s = raw_stream(&conn).await?;
+                s.send(Frame::RegisterPublisher(PublisherPayload { topic: TopicName::try_from(topic)?, retention_policy: 0, operations: vec![] })).await?;
+                match s.next().await { Some(Ok(Frame::Ok)) => { conn.close(0u32.into(), b"bye"); Ok::<_, anyhow::Error>(()) } other => anyhow::bail!("answer {other:?}") }
+            };
+            let still_valid = time::OffsetDateTime::now_utc() + time::Duration::milliseconds(700) < until;
+            let v = match tokio::time::timeout(Duration::from_secs(8), one).await { Ok(Ok(())) => "accept", _ => "refuse" };
+            // (a machine so slow that the certificate lapsed before the first two rounds were over shows nothing)
+            if round < 2 && !still_valid { anyhow::bail!("the certificate lapsed before round {round} was over"); }
+            verdicts.push(v);
+        }
+        let _ = std::fs::remove_dir_all(&dir);
+        Ok::<_, anyhow::Error>(verdicts.join("+"))
+    };
+    match tokio::time::timeout(Duration::from_secs(60), r).await { Ok(Ok(s)) => s, Ok(Err(e)) => format!("void:{}", format!("{e}").replace(' ', "_").chars().take(80).collect::<String>()), Err(_) => "void:timeout".into() }
+}
+
 fn skew(c: &Certs, secs: i64) -> String {
     use rustls::client::ServerCertVerifier;
     use rustls::server::ClientCertVerifier;
@@ -277,6 +335,7 @@ pub fn run(cfg: &Cfg) {
         cases.push("tls wrongca trusted".into());
         cases.push("tls rotate 3".into());
         cases.push("tls cafile trusted".into());
+        cases.push("tls expiring 6".into());
         for sk in [0i64, 5, 120, 3600, 86_400, -120, -86_400] { cases.push(format!("tls skew {sk}")); }
         for c in ["trusted", "otherca", "selfsigned", "none"] { cases.push(format!("tlsd {c}")); }
         // whoever presents a certificate of CA A somewhere in its chain is not thereby certified by CA A
@@ -318,6 +377,7 @@ pub fn run(cfg: &Cfg) {
         let topic = format!("/verif/tls{i}");
         let res = if t[1] == "skew" { skew(&a, t[2].parse().unwrap_or(0)) }
             else if t[1] == "cafile" { rt.block_on(cafile(addr_t, &a, &b, &topic)) }
+            else if t[1] == "expiring" { rt.block_on(expiring(t[2].parse().unwrap_or(6), &topic)) }
             else if t[1] == "default" { rt.block_on(attempt(addr, &a, &b, &ss, &bun, t[2], &topic)) }
             else if t[1] == "rotate" { rt.block_on(rotate(addr_t, addr_rot, &a, t[2].parse().unwrap_or(1), &topic)) }
             else if t[1] == "noexp" { rt.block_on(attempt(addr, &ne, &b, &ss, &bun, "trusted", &topic)) }
@@ -339,8 +399,8 @@ pub fn run(cfg: &Cfg) {
             else if t[1] == "lapsedself" { rt.block_on(attempt_with(addr, &a, &b, &ss, &bun, "explicit", &topic, Some(&old[0]))) }
             else if t[1] == "lapsedother" { rt.block_on(attempt_with(addr, &a, &b, &ss, &bun, "explicit", &topic, Some(&old[1]))) }
             else { rt.block_on(attempt(addr, &a, &b, &ss, &bun, t[1], &topic)) };
-        let want = if t[1] == "skew" { "accept" } else if t[1] == "default" { if t[2] == "trusted" { "accept" } else { "refuse" } } else if t[1] == "rotate" || t[1] == "cafile" { "refuse" } else if t[1] == "rerun" { "accept" } else if (t[1] == "trusted" || t[1] == "bundle" || t[1] == "noexp") && (t[2] == "trusted" || t[2] == "noexp") && (t[1] == "noexp") == (t[2] == "noexp") { "accept" } else { "refuse" };
-        let mon = if res == want { Ok(()) } else { Err(format!("C15: client identity {} against server identity {}: {res}, must {want}", t[1], t[2])) };
+        let want = if t[1] == "skew" { "accept" } else if t[1] == "expiring" { "accept+accept+refuse" } else if t[1] == "default" { if t[2] == "trusted" { "accept" } else { "refuse" } } else if t[1] == "rotate" || t[1] == "cafile" { "refuse" } else if t[1] == "rerun" { "accept" } else if (t[1] == "trusted" || t[1] == "bundle" || t[1] == "noexp") && (t[2] == "trusted" || t[2] == "noexp") && (t[1] == "noexp") == (t[2] == "noexp") { "accept" } else { "refuse" };
+        let mon = if res == want || (t[1] == "expiring" && res.starts_with("void:the_certificate_lapsed")) { Ok(()) } else { Err(format!("C15: client identity {} against server identity {}: {res}, must {want}", t[1], t[2])) };
         out.stat(&format!("client_{}", t[1]));
         out.case(c, &res, mon);
     }
